@@ -441,13 +441,11 @@ package types
 // ---- the meta store (chain id, last block, last reward hash): durable key/value writes through tm-db, outside the
 // contracts (frame only; what is written where is anchored at the call sites)
 //@ func (stdb *MetaDB) PutChainID(chainId)
-//@   requires stdb != nil
 //@   modifies everything
 //@   assert@call(put,0): $arg0 == stdb && $arg1 == keyChainID && (len($arg2) > 0 ==> content($arg2) == chainId)                     [C03,C07]
 //@   must@call(put,0): true                                                                                     [C03,C07]
 
 //@ func (stdb *MetaDB) ChainID()
-//@   requires stdb != nil
 //@   modifies nothing
 //@   assert@call(get,0): $arg0 == stdb && $arg1 == keyChainID                                                   [C03,C07]
 //@   ensures metakv[stdb][keyChainID] != 0 ==> result == metakv[stdb][keyChainID]                               [C03,C07]
@@ -459,18 +457,15 @@ package types
 //@   assert@call(Marshal,0): istype($arg0, ptr(BlockContext)) && as($arg0, ptr(BlockContext)) == ctx           [C01,C07]
 
 //@ func (stdb *MetaDB) LastBlockContext()
-//@   requires stdb != nil
 //@   modifies everything
 //@   assert@call(get,0): $arg0 == stdb && $arg1 == keyBlockContext                                              [C01,C07]
 
 //@ func (stdb *MetaDB) PutLastBlockHeight(bh)
-//@   requires stdb != nil
 //@   modifies everything
 //@   assert@call(put,0): $arg0 == stdb && $arg1 == keyBlockHeight                                               [C01,C07]
 //@   assert@call(PutUint64,0): $arg2 == (bh >= 0 ? bh : bh + 2^64)                                              [C01,C07]
 
 //@ func (stdb *MetaDB) LastBlockHeight()
-//@   requires stdb != nil
 //@   modifies everything
 //@   assert@call(get,0): $arg0 == stdb && $arg1 == keyBlockHeight                                               [C01,C07]
 
@@ -486,24 +481,20 @@ package types
 //@   ensures result == nil ==> metakv[stdb][k] == content(v)
 
 //@ func (stdb *MetaDB) PutLastRewardHash(v)
-//@   requires stdb != nil
 //@   modifies everything
 //@   assert@call(put,0): $arg0 == stdb && $arg1 == keyRewardHash && $arg2 == v                                  [C01,C07]
 //@   must@call(put,0): true                                                                                     [C01,C07]
 
 //@ func (stdb *MetaDB) LastRewardHash()
-//@   requires stdb != nil
 //@   modifies nothing
 //@   ensures content(result) == metakv[stdb][keyRewardHash]                                                     [C01,C07]
 //@   assert@call(get,0): $arg0 == stdb && $arg1 == keyRewardHash                                                [C01,C07]
 
 //@ func (stdb *MetaDB) PutLastBlockAppHash(v)
-//@   requires stdb != nil
 //@   modifies everything
 //@   assert@call(put,0): $arg0 == stdb && $arg1 == keyBlockAppHash && $arg2 == v                                [C01,C07]
 
 //@ func (stdb *MetaDB) LastBlockAppHash()
-//@   requires stdb != nil
 //@   modifies nothing
 //@   ensures content(result) == metakv[stdb][keyBlockAppHash]                                                   [C01,C07]
 
